@@ -39,12 +39,49 @@ ASSUMPTIONS.append('pipelines: a port drop counts as "discarded by the documente
                    'so the one ambiguous occupancy is accepted either way')
 
 
+ASSUMPTIONS.append('sizes that are not whole numbers (ORACLE-ONLY, counted apart: the gensink / network models read sizes as naturals): about a quarter of the generator, '
+                   'sink and pipeline cases draw sizes from a float-valued distribution - exponential-like floats, values below 1, exact binary fractions. "with the n-th drawn '
+                   'size" / "byte counts ... exactly those of the packets delivered" are read on the drawn value itself: `packet.size == drawn`, and the sink counts the sum of '
+                   'the drawn values (exactly for binary fractions, whose sums are exact in IEEE doubles; to 1e-9 relative otherwise, the order of summation being left open)')
+
+FRAC8 = [0.125, 0.25, 0.375, 0.5, 0.625, 0.75, 0.875]
+FRAC_STYLES = ['expo', 'small', 'dyadic', 'mixed']
+
+
+def frac_size(rng, style):
+    """one draw of a float-valued size distribution (> 0).  `dyadic` and `small-dyadic` values are multiples of 1/8 below 2**12: all their sums are exact"""
+    if style == 'mixed':
+        style = rng.choice(['expo', 'small', 'dyadic', 'int'])
+    if style == 'expo':
+        return rng.expovariate(1 / rng.choice([1.0, 200.0, 1000.0])) + 1e-9
+    if style == 'small':
+        return rng.choice([0.75, 0.5, 0.25, 0.999, 0.001, 0.875, round(rng.random() * 0.98 + 0.01, 4)])
+    if style == 'dyadic':
+        return float(rng.choice([0, 1, 40, 64, 100, 500, 1499, 1500])) + rng.choice(FRAC8)
+    if style == 'small-dyadic':
+        return rng.choice(FRAC8) + rng.choice([0, 0, 1, 2])
+    return rng.choice([40, 100, 512, 1500])
+
+
+def exact_sizes(sizes):
+    return all(float(x) * 8 == int(float(x) * 8) and x < 4096 for x in sizes)
+
+
+def same_total(a, b, exact):
+    return a == b if exact else abs(a - b) <= 1e-9 * max(abs(a), abs(b), 1.0)
+
+
 def gen_case(rng, cid):
     n = rng.randint(0, 12)
     gaps = [rng.choice([0, 0.5, 1, 1, 2, 0.25, round(rng.random() * 3, 3)]) for _ in range(n + 3)]
     sizes = [rng.choice([40, 100, 512, 1500, rng.randint(1, 2000)]) for _ in range(n + 3)]
     c = {'cid': f'g{cid}', 'kind': 'gen', 'initial': rng.choice([0, 0, 0.5, 1, 2.75]), 'finish': rng.choice([INF, 3, 5.5, 10, sum(gaps[:n])]),
          'gaps': gaps, 'sizes': sizes, 'flow': rng.randrange(4)}
+    frac = rng.choice(FRAC_STYLES) if rng.random() < 0.25 else None
+    if frac:
+        # a float-valued size distribution (random.expovariate and the like): the n-th packet carries the n-th drawn value itself
+        c['frac'] = frac
+        c['sizes'] = [frac_size(rng, frac) for _ in sizes]
     # a second, independent generator lives in the same Environment with the SAME flow id (another source name, its own
     # draws, its own finish): "a DistPacketGenerator emits packet n (ids 1,2,...)" speaks of each generator by itself, so
     # the peer must not influence the generator under test (the model sees only the first). Its draws cycle and contain
@@ -54,6 +91,8 @@ def gen_case(rng, cid):
         pg.append(rng.choice([0.5, 1, 0.75]))
     c['peer'] = {'initial': rng.choice([0, 0, 0.5, 1, 0.25]), 'finish': rng.choice([2, 3.5, 6, 11]), 'gaps': pg,
                  'sizes': [rng.choice([40, 100, 1500]) for _ in range(rng.randint(1, 4))], 'first': rng.random() < 0.5}
+    if frac and rng.random() < 0.6:
+        c['peer']['sizes'] = [frac_size(rng, frac) for _ in c['peer']['sizes']]
     return c
 
 
@@ -116,6 +155,13 @@ def run_gen(c):
                               f'(first generator: {[p.packet_id for _, p in log][:6]}...)', 'signature': 'generator-law-peer'})
     elif any(p.time != t_ or p.flow_id != c['flow'] or p.src != 'peer' for t_, p in plog):
         fails.append({'what': 'fields (time/flow/src) of the packets of a second generator with the same flow id are wrong', 'signature': 'generator-fields'})
+    elif peer and [p.size for _, p in plog] != [peer['sizes'][i % len(peer['sizes'])] for i in range(len(plog))]:
+        # "with the n-th drawn size", for the peer: its size draws cycle through peer['sizes']
+        fails.append({'what': f'a second generator with the same flow id emitted sizes {[p.size for _, p in plog][:5]}..., its size draws were '
+                              f'{[peer["sizes"][i % len(peer["sizes"])] for i in range(min(5, len(plog)))]}...', 'signature': 'generator-law-peer'})
+    if c.get('frac'):
+        # non-integer sizes: outside the gensink model (sizes are naturals there) - oracle only
+        return None, [], fails
     return impl, text, fails
 
 
@@ -264,10 +310,16 @@ def sink_case(rng, cid, peer=True):
                    'ptime': rng.choice([0, 0.25, 1]), 'size': rng.choice([40, 100, 1500])})
     c = {'cid': f's{cid}', 'kind': 'sink', 'rec_arr': rng.random() < 0.8, 'absolute': rng.random() < 0.5, 'rec_waits': rng.random() < 0.8,
          'by_flow': rng.random() < 0.7, 'ds': ds}
+    if rng.random() < 0.25:
+        c['frac'] = rng.choice(FRAC_STYLES)           # packets of non-integer size are delivered (oracle-only, see ASSUMPTIONS)
+        for d in ds:
+            d['size'] = frac_size(rng, c['frac'])
     if peer and rng.random() < 0.6:
         # "a PacketSink's per-flow (or per-source) packet and byte counts, arrival times and waits are exactly those of the packets
         # delivered to IT": a second sink fed other packets of the same flows / sources in the same Environment
         c['peer'] = sink_case(rng, f'{cid}.p', peer=False)
+        if c.get('frac') and not c['peer'].get('frac'):
+            c['peer']['frac'] = 'int'                  # the whole case stays outside the replay
         if rng.random() < 0.5:
             for k in ('rec_arr', 'absolute', 'rec_waits', 'by_flow'):
                 c['peer'][k] = c[k]
@@ -287,7 +339,7 @@ def run_sink(c):
         for i, d in enumerate(cc['ds']):
             yield env.timeout(d['gap'])
             p = Packet(d['ptime'], d['size'], i + 1, src=d['src'], flow_id=d['flow'])
-            seen.append((env.now, p))
+            seen.append((env.now, p, d['size']))
             sk.put(p)
     seen, pseen = [], []
     env.process(drv(c, sink, seen))
@@ -306,10 +358,22 @@ def run_sink(c):
 
 def sink_report(c, sink, seen, base, label):
     keyof = (lambda p: p.flow_id) if c['by_flow'] else (lambda p: p.src)
+    given = {id(p): s_ for _, p, s_ in seen}          # the size each delivered packet was created with
+    seen = [(t, p) for t, p, _ in seen]
     keys = sorted({keyof(p) for _, p in seen})
     impl, text, fails = {}, [], []
+    exact = exact_sizes(given.values())
     for k in keys:
         cid = f"{base}k{k}"
+        mine = [(t, p) for t, p in seen if keyof(p) == k]
+        nbytes = 0
+        for _, p in mine:
+            nbytes = nbytes + given[id(p)]
+        if sink.packets_received[k] != len(mine) or not same_total(sink.bytes_received[k], nbytes, exact):
+            fails.append({'what': f'{label}sink counts for key {k} wrong: {sink.packets_received[k]} packets / {sink.bytes_received[k]} bytes recorded, '
+                                  f'{len(mine)} packets / {nbytes} bytes delivered to it (sizes {[given[id(p)] for _, p in mine][:6]}...)', 'signature': 'sink-counts'})
+        if c.get('frac'):
+            continue                                     # non-integer sizes: not replayed through the sink model
         first = sink.first_arrival[k] if (c['rec_arr'] and k in sink.first_arrival) else None
         impl[cid] = [f"count={sink.packets_received[k]} bytes={sink.bytes_received[k]} "
                      f"waits={','.join(str(bits(x)) for x in sink.waits[k])} sizes={list(sink.packet_sizes[k])} "
@@ -319,10 +383,8 @@ def sink_report(c, sink, seen, base, label):
         text.append(f"CASE {cid} sink {int(c['rec_arr'])} {int(c['absolute'])} {int(c['rec_waits'])} {k}")
         text += [f'v {keyof(p)} {bits(t)} {bits(p.time)} {p.size}' for t, p in seen]
         text.append('END')
+    for k in keys:
         mine = [(t, p) for t, p in seen if keyof(p) == k]
-        if sink.packets_received[k] != len(mine) or sink.bytes_received[k] != sum(p.size for _, p in mine):
-            fails.append({'what': f'{label}sink counts for key {k} wrong: {sink.packets_received[k]} packets / {sink.bytes_received[k]} bytes recorded, '
-                                  f'{len(mine)} packets / {sum(p.size for _, p in mine)} bytes delivered to it', 'signature': 'sink-counts'})
         if c['rec_waits'] and list(sink.waits[k]) != [t - p.time for t, p in mine]:
             fails.append({'what': f'{label}sink waits for key {k} are not arrival - creation time', 'signature': 'sink-waits'})
         if c['rec_arr']:
@@ -392,6 +454,18 @@ class Tap:
         self.nxt.put(p)
 
 
+class Call:
+    def __init__(self, put): self.put = put
+
+
+class SinkTap:
+    """in front of the pipeline's PacketSink: keeps the harness's own list of what was delivered (not part of the tap log)"""
+    def __init__(self, run, sink): self.run, self.sink = run, sink
+    def put(self, p):
+        self.run.delivered.append((self.run.env.now, p))
+        self.sink.put(p)
+
+
 class Pipe:
     def __init__(self, c):
         self.c = c
@@ -402,6 +476,12 @@ class Pipe:
         self.badrule = []         # port drops / admissions that are not by the documented tail-drop rule
         self.nrule = 0
         self.sink = PacketSink(env)
+        self.delivered = []       # (instant, packet) handed to the pipeline's sink
+        self.drawn = {}           # id(packet) -> the size its source drew for it
+        self.gen_sourced = set()  # ids of packets made by a real DistPacketGenerator
+        self.pending_draw = None
+        if c['fan']:
+            c['fan'] = {int(k): v for k, v in c['fan'].items()}          # (a replayed case comes back from JSON with string keys)
         # a second sink, not part of the pipeline, that receives a few packets of the same flows from a source of its own
         # (the sink of a neighbouring pipeline in the same Environment): what the pipeline's sink reports is what the pipeline delivered
         self.decoy = PacketSink(env) if c.get('decoy') else None
@@ -416,11 +496,22 @@ class Pipe:
                 k = c['fan'][f]
                 e = make_elem(env, k, rng); self.elems.append((f'b{f}{k}', k, e)); self.branches.append(e)
         # wiring with taps
-        final = self.sink
+        final = SinkTap(self, self.sink)
         if c['fan']:
             for (n, k, e) in self.elems[len(c['chain']):]:
                 e.out = Tap(self, n, final)
-            if c.get('fan_kind') == 'fib':
+            if c.get('fan_kind') in ('fib-ends', 'flow-default'):
+                # a dispatcher with NO numbered outputs: a FIBDemux that routes through `ends` and/or `default_out` only (outs None or []),
+                # a FlowDemux([]) with a default output.  Flows listed in c['ends'] have their own branch; all others share the branch of
+                # the first flow that is not listed (the default output).  Nothing is without a route.
+                if c['fan_kind'] == 'flow-default':
+                    self.demux = FlowDemux([], default_out=self.branches[0])
+                else:
+                    ends = {f: self.branches[i] for i, f in enumerate(FLOWS) if f in c['ends']}
+                    rest = [i for i, f in enumerate(FLOWS) if f not in c['ends']]
+                    self.demux = FIBDemux(outs=None if c['outs_none'] else [], ends=ends if (ends or c['ends_dict']) else None,
+                                          fib={int(k): v for k, v in c['fib0map']}, default_out=self.branches[rest[0]] if rest else None)
+            elif c.get('fan_kind') == 'fib':
                 # a FIBDemux whose table is incomplete at first and is replaced (setter) or completed (same dict) during
                 # the run: while a flow has no route its packets are discarded by rule ("no route"), from the update on
                 # they must be forwarded
@@ -441,11 +532,28 @@ class Pipe:
         else:
             nxt = final
         for (n, k, e) in reversed(self.elems[:len(c['chain'])]):
-            e.out = Tap(self, n, nxt)
+            if c['fan'] and nxt is self.demux:
+                # the dispatcher is wired DIRECTLY behind the last chain element (no harness object in between: the element sees, and
+                # may test, the dispatcher itself); the tap record of the hand-over is made inside the dispatcher's put()
+                e.out = nxt
+                self.demux.put = Tap(self, n, Call(self.demux.put)).put
+            else:
+                e.out = Tap(self, n, nxt)
             nxt = e
         self.head = nxt
         for (n, k, e) in self.elems:
             self._tap_put(n, e)
+        # what the sources hand to the head of the pipeline, with the size drawn for it
+        self.sent = []
+        orig_head = self.head.put
+        def hput(p, orig=orig_head):
+            self.sent.append(p)
+            if self.pending_draw is not None:
+                (self.drawn[id(p)], isgen), self.pending_draw = self.pending_draw, None
+                if isgen:
+                    self.gen_sourced.add(id(p))
+            orig(p)
+        self.head.put = hput
         self.draws = LossDraws(random.Random(c['seed'] + 1))
 
     def _tap_put(self, name, e):
@@ -484,18 +592,40 @@ class Pipe:
     def run(self):
         env, c = self.env, self.c
         rng = random.Random(c['seed'] + 2)
-        self.sent = []
+        frac = c.get('frac')          # pipelines with non-integer sizes carry exact binary fractions only (every byte account of the taps stays exact)
+        def size():
+            return frac_size(rng, frac) if frac and rng.random() < 0.8 else rng.choice([40, 100, 500, 1500])
         def src(k):
             pid = 1000 * k
             for _ in range(c['npk']):
                 yield env.timeout(rng.choice([0, 0, 0.5, 1, 2, 0.125]))
                 for _ in range(rng.choice([1, 1, 2, 3])):
                     pid += 1
-                    p = Packet(env.now, rng.choice([40, 100, 500, 1500]), pid, src=f's{k}', flow_id=rng.choice(FLOWS), payload=('pl', pid))
-                    self.sent.append(p)
+                    s_ = size()
+                    p = Packet(env.now, s_, pid, src=f's{k}', flow_id=rng.choice(FLOWS), payload=('pl', pid))
+                    self.pending_draw = (s_, False)
                     self.head.put(p)
+        def gsrc(k):
+            # a real DistPacketGenerator as the source (oracle-only pipelines): scripted draws, one flow, wired straight to the head
+            gaps = [rng.choice([0, 0, 0.5, 1, 2, 0.125]) for _ in range(c['npk'] + 2)]
+            t_end = 0
+            for g_ in gaps[:c['npk']]:
+                t_end = t_end + g_
+            gi = iter(gaps + [1e6] * 4)
+            def sdist():
+                s_ = size()
+                self.pending_draw = (s_, True)
+                self.gen_draws.append(s_)
+                return s_
+            g = DistPacketGenerator(env, f's{k}', lambda: next(gi), sdist, initial_delay=rng.choice([0, 0, 0.5]), finish=t_end, flow_id=rng.choice(FLOWS))
+            g.out = self.head
+            self.gens.append(g)
+        self.gen_draws, self.gens = [], []
         for k in range(c['nsrc']):
-            env.process(src(k + 1))
+            if k < c.get('gensrc', 0):
+                gsrc(k + 1)
+            else:
+                env.process(src(k + 1))
         if self.decoy is not None:
             def side():
                 for i in range(c['decoy']):
@@ -577,9 +707,26 @@ def pipe_oracle(c, pr):
     if not lossy and got + ndrop + nnr != len(pr.sent):
         fails.append({'what': f'{len(pr.sent)} packets sent, {got} at the sink, {ndrop} dropped by ports, {nnr} discarded for lack of a route '
                               f'(chain {c["chain"]}, fan {c["fan"]}, {c.get("fan_kind", "flow")} demux)', 'signature': 'pipeline-conservation'})
-    for f in FLOWS:
-        if pr.sink.bytes_received[f] != sum(p.size for p in per['__none__']['in']) if False else False:
-            pass
+    # "a DistPacketGenerator emits packet n ... with the n-th drawn size": the packet a source hands to the head of the pipeline carries the value drawn for it
+    for p in pr.sent:
+        if id(p) in pr.gen_sourced and not (p.size == pr.drawn[id(p)]):
+            fails.append({'what': f'a DistPacketGenerator feeding the pipeline drew the size {pr.drawn[id(p)]!r} and emitted packet {p.packet_id} (source {p.src}) with size {p.size!r}',
+                          'signature': 'generator-law'})
+            break
+    # "a PacketSink's per-flow packet and byte counts ... are exactly those of the packets delivered to it": per flow, against the harness's own list of
+    # deliveries and the sizes the sources drew (binary fractions or whole numbers: every sum is exact)
+    for f in sorted({p.flow_id for _, p in pr.delivered} | set(FLOWS)):
+        mine = [p for _, p in pr.delivered if p.flow_id == f]
+        if any(id(p) not in pr.drawn for p in mine):
+            continue
+        nbytes = 0
+        for p in mine:
+            nbytes = nbytes + pr.drawn[id(p)]
+        if pr.sink.packets_received[f] != len(mine) or pr.sink.bytes_received[f] != nbytes:
+            fails.append({'what': f'the sink of the pipeline reports {pr.sink.packets_received[f]} packets / {pr.sink.bytes_received[f]} bytes of flow {f}; delivered to it: '
+                                  f'{len(mine)} packets whose sources drew the sizes {[pr.drawn[id(p)] for p in mine][:6]}... = {nbytes} bytes '
+                                  f'(chain {c["chain"]}, fan {c["fan"]})', 'signature': 'pipeline-sink-counts'})
+            break
     return fails[:4]
 
 
@@ -594,6 +741,37 @@ def pipe_case(rng, cid):
     if fan and rng.random() < 0.5:
         c.update(fan_kind='fib', fib0=[f for f in FLOWS if rng.random() < 0.5], t_update=rng.choice([0.5, 1, 2, 3, 5]),
                  update=rng.choice(['setter', 'inplace']))
+    return c
+
+
+ASSUMPTIONS.append('oracle-only pipelines (not replayed through the network model, counted apart): (i) sizes that are binary fractions; (ii) real DistPacketGenerators as '
+                   'sources, wired straight to the head of the pipeline; (iii) a dispatcher with NO numbered outputs - FIBDemux(outs=None or [], ends=..., default_out=...), '
+                   'FlowDemux([], default_out=...) - behind every kind of element and behind a generator (empty chain). The dispatcher is the `out` of the element before '
+                   'it (no harness object in between). Only the dispatchers of the library are placed there: whether a device that is set but *falsy* counts as attached '
+                   'is left open (DESIGN section 3; the unchanged Port / schedulers test `if self.out:`), so no artificial falsy device is generated')
+
+
+def pipe_case_oo(rng, cid):
+    """oracle-only pipeline shapes (see ASSUMPTIONS); judged by the same per-element conservation account as every pipeline"""
+    c = pipe_case(rng, f'o{cid}')
+    shape = rng.choice(['frac', 'frac', 'noouts', 'noouts', 'noouts', 'gens'])
+    c['oracle_only'] = shape
+    if shape == 'frac' or rng.random() < 0.3:
+        c['frac'] = rng.choice(['dyadic', 'dyadic', 'small-dyadic'])
+    if shape == 'gens' or rng.random() < 0.5:
+        c['gensrc'] = rng.randint(1, c['nsrc'])
+    if shape == 'noouts':
+        c['chain'] = [rng.choice(KINDS) for _ in range(rng.choice([0, 1, 1, 1, 2, 3]))]
+        if not c['chain']:
+            c['gensrc'] = c['nsrc']                     # a generator wired straight to the dispatcher
+        c['fan'] = {f: rng.choice(['port', 'wire', 'tb', 'sp', 'drr', 'wfq']) for f in FLOWS}
+        for k in ('fib0', 't_update', 'update'):
+            c.pop(k, None)
+        if rng.random() < 0.3:
+            c['fan_kind'] = 'flow-default'
+        else:
+            c.update(fan_kind='fib-ends', ends=[f for f in FLOWS if rng.random() < 0.6], outs_none=rng.random() < 0.5, ends_dict=rng.random() < 0.5,
+                     fib0map=[[f, 0] for f in FLOWS if rng.random() < 0.3])
     return c
 
 
@@ -968,8 +1146,10 @@ def run(ctx):
         cases = [gen_case(rng, i) for i in range(n)] + [sink_case(rng, i) for i in range(n)] + [pipe_case(rng, i) for i in range(n)]
         cases += [switch_case(rng, i) for i in range(n // 3)]
         cases += [genre_case(rng, i) for i in range(n // 6)]          # oracle-only (counted apart below)
+        cases += [pipe_case_oo(rng, i) for i in range(n // 3)]        # oracle-only
     impl, text, dis, orc = {}, [], [], []
     hist = collections.Counter()
+    n_frac, n_oo = collections.Counter(), collections.Counter()
     owner = {}
     npk = 0
     cases_dyn = [c for c in cases if str(c.get('kind', '')).startswith('dyn:')]        # (a replay of a ring case: run by the families at the end)
@@ -977,11 +1157,19 @@ def run(ctx):
     for c in cases:
         hist['kind:' + c['kind']] += 1
         if c['kind'] == 'gen':
-            a, t, f = run_gen(c); impl[c['cid']] = a; text += t; owner[c['cid']] = c
+            a, t, f = run_gen(c)
+            if a is not None:
+                impl[c['cid']] = a; text += t; owner[c['cid']] = c
             hist['gen:with_peer_of_same_flow'] += 1 if c.get('peer') else 0
+            if c.get('frac'):
+                hist['gen:non-integer sizes (oracle-only):' + c['frac']] += 1
+                n_frac['generator cases'] += 1
         elif c['kind'] == 'sink':
             a, t, f = run_sink(c); impl.update(a); text += t
             hist['sink:with_second_sink_in_the_same_environment'] += 1 if c.get('peer') else 0
+            if c.get('frac'):
+                hist['sink:non-integer sizes (oracle-only):' + c['frac']] += 1
+                n_frac['sink cases'] += 1
             for k in a: owner[k] = c
         elif c['kind'] == 'genre':
             f, st = run_genre(c)
@@ -1000,6 +1188,16 @@ def run(ctx):
             for k in c['chain']: hist['elem:' + k] += 1
             if c['fan']: hist['fan-out:' + c.get('fan_kind', 'flow')] += 1
             if c.get('decoy'): hist['pipelines_with_a_second_sink_in_the_environment'] += 1
+            hist['pipeline_packets_delivered_and_checked_against_the_sink_counts'] += len(pr.delivered)
+            if c.get('oracle_only'):
+                n_oo[c['oracle_only']] += 1
+                n_oo['packets'] += len(pr.sent)
+                n_oo['packets made by a real DistPacketGenerator'] += len(pr.gen_sourced)
+                n_oo['packets of non-integer size'] += sum(1 for p in pr.sent if pr.drawn.get(id(p)) != int(pr.drawn.get(id(p), 0)))
+                if c.get('fan_kind') in ('fib-ends', 'flow-default'):
+                    up = c['chain'][-1] if c['chain'] else 'generator'
+                    n_oo[f'dispatcher without numbered outputs ({c["fan_kind"]}) behind: {up}'] += 1
+                    n_oo['packets through a dispatcher without numbered outputs'] += pr.demux.packets_recevied
         for x in f:
             x['case'] = c
             orc.append(x)
@@ -1014,15 +1212,18 @@ def run(ctx):
         b = model.get(cid)
         if a != b:
             dis.append({'case': owner[cid], 'detail': f'{cid}: impl {a[:3]} model {(b or [])[:3]}', 'impl': a[:50], 'model': (b or [])[:50]})
-    net_dis, net_cov = net_leg(ctx, [c for c in cases if c['kind'] == 'pipe'])        # (E) network leg: the one call
+    net_dis, net_cov = net_leg(ctx, [c for c in cases if c['kind'] == 'pipe' and not c.get('oracle_only')])        # (E) network leg: the one call
     dis += net_dis
     samples = [c for c in cases if c['kind'] == 'pipe'][:2]
-    nontriv = len({json.dumps(c, sort_keys=True, default=str) for c in cases if c['kind'] != 'genre' and (c['kind'] != 'pipe' or len(c['chain']) > 1 or c['fan'])})
-    n_oracle_only = sum(1 for c in cases if c['kind'] == 'genre')
+    nontriv = len({json.dumps(c, sort_keys=True, default=str) for c in cases if c['kind'] != 'genre' and not c.get('oracle_only') and not (c['kind'] in ('gen', 'sink') and c.get('frac'))
+                   and (c['kind'] != 'pipe' or len(c['chain']) > 1 or c['fan'])})
+    n_genre = sum(1 for c in cases if c['kind'] == 'genre')
+    n_oracle_only = n_genre + sum(1 for c in cases if c.get('oracle_only') or (c['kind'] in ('gen', 'sink') and c.get('frac')))
     cov = {'evaluations': len(cases) - n_oracle_only, 'distinct_nontrivial': nontriv,
            'rule': 'generator scripts, sink delivery scripts and random pipelines (chains of 1-4 elements from 10 kinds, optional FlowDemux / FIBDemux fan-out/fan-in, the FIBDemux with a route update during the run); non-trivial = distinct case (pipelines: more than one element or a fan-out); oracle-only cases with 2-3 packet switches alive in one process',
            'samples': samples, 'traces_validated_against_impl': len(impl) - len(dis), 'packets_through_pipelines': npk,
            'operation_histogram': dict(sorted(hist.items())), 'network_replay': net_cov,
-           'oracle_only': {'generators_with_distributions_re-pointed_while_running': n_oracle_only,
+           'oracle_only': {'generators_with_distributions_re-pointed_while_running': n_genre,
+                           'non-integer_sizes': dict(sorted(n_frac.items())), 'pipelines': dict(sorted(n_oo.items())),
                            'rings_schedulers': ring_s['coverage'], 'rings_port': ring_p['coverage']}}
     return {'coverage': cov, 'disagreements': dis, 'oracle_failures': orc}
